@@ -66,3 +66,8 @@ N("c15-n-stop-order", "C15", FT, "BlockingPortal.stop", "        self._event_loo
 M("c15-provider-forwards-exception", "C15", FT, "BlockingPortalProvider.__exit__", "portal_cm.__exit__(None, None, None)", "portal_cm.__exit__(exc_type, exc_val, exc_tb)", ["R15-g"])
 M("c15-provider-stops-with-leases-left", "C15", FT, "BlockingPortalProvider.__exit__", "            if not self._leases:", "            if True:", ["R15-g"])
 M("c15-provider-second-portal", "C15", FT, "BlockingPortalProvider.__enter__", "            if self._portal_cm is None:", "            if True:", ["R15-g"])
+
+# from seeded change C15/f (round 3)
+M("c15-thread-token-overrides-explicit-token", "C15", FT, "_token_or_error",
+  "    if token is not None:\n        return token\n\n    try:\n        return threadlocals.current_token\n    except AttributeError:",
+  "    token = getattr(threadlocals, \"current_token\", token)\n    if token is not None:\n        return token\n\n    try:\n        return threadlocals.current_token\n    except AttributeError:", ["R15-f"])
